@@ -26,6 +26,7 @@ def main():
     ap.add_argument("--tier", default="quick")
     ap.add_argument("--props")
     ap.add_argument("--base", default="HEAD")
+    ap.add_argument("--others", action="store_true", help="when the property's own check misses it, run every other check too")
     ap.add_argument("--tests", action="store_true", help="also run the pinned baseline on the patched tree")
     ap.add_argument("--record", action="store_true", help="write the outcome into <dir>/meta.json under 'verified'")
     a = ap.parse_args()
@@ -66,6 +67,20 @@ def main():
             record["checks"][p] = {"tier": a.tier, "rc": r.returncode, "violation_lines": len(viol),
                                    "no_failing_input_found": any("no-failing-input-found" in l for l in viol),
                                    "summary": lines[-1] if lines else ""}
+        if not ok and a.others:
+            allp = sorted(p.stem.upper() for p in (VERIF / "harness").glob("c[0-9][0-9].py"))
+            for p in [q for q in allp if q not in props]:
+                r = sh(f"cd {VERIF} && VERIF_REPO={wt} timeout 1500 ./check {p} --tier {a.tier}")
+                lines = [l for l in r.stdout.splitlines() if "condarc" not in l]
+                viol = [l for l in lines if l.startswith("VIOLATION")]
+                if r.returncode != 0:
+                    print(f"   other check {p}: rc={r.returncode} violations={len(viol)}")
+                    record["checks"][p] = {"tier": a.tier, "rc": r.returncode, "violation_lines": len(viol),
+                                           "no_failing_input_found": any("no-failing-input-found" in l for l in viol),
+                                           "summary": lines[-1] if lines else ""}
+                    if r.returncode == 1 and viol:
+                        ok = True
+            record["caught_by_other_check_only"] = ok
         print("CAUGHT" if ok else "MISSED")
         record["caught"] = ok
         if a.record:
